@@ -95,6 +95,26 @@ fn push_all(mut slice: SendSlice<'_, Item>, k: u32, v: u32, log: &Log) -> String
     format!("ok {pushed}")
 }
 
+/// the bulk form `SendSlice::extend(&mut iter)`: takes items from the iterator while there is room
+fn extend_all(mut slice: SendSlice<'_, Item>, k: u32, v: u32, log: &Log) -> String {
+    let flags: Vec<Rc<Cell<bool>>> = (0..k).map(|_| Rc::new(Cell::new(false))).collect();
+    let items: Vec<Item> = (0..k).map(|i| Item { value: v.wrapping_add(i), log: log.clone(), armed: flags[i as usize].clone() }).collect();
+    let mut it = items.into_iter();
+    let r = slice.extend(&mut it);
+    let left = it.len() as u32;
+    let pushed = k - left;
+    for f in flags.iter().take(pushed as usize) {
+        // now owned by the channel: whoever destroys it from here on is recorded
+        f.set(true);
+    }
+    drop(it);
+    drop(slice);
+    match r {
+        Ok(()) => format!("ok {pushed}"),
+        Err(_) => "err closed".into(),
+    }
+}
+
 fn pop_all(mut slice: RecvSlice<'_, Item>, k: u32) -> String {
     let mut got = Vec::new();
     for _ in 0..k {
@@ -143,6 +163,15 @@ impl Component for Spsc {
                     Err(_) => "err closed".into(),
                     Ok(None) => "ok none".into(),
                     Ok(Some(slice)) => push_all(slice, k, v, &ch.log),
+                }
+            }
+            ["extend", k, v] => {
+                let (Some(k), Some(v)) = (num::<u32>(k), num::<u32>(v)) else { return "bad-op".into() };
+                let Some(send) = ch.send.as_mut() else { return "bad-op".into() };
+                match send.try_slice() {
+                    Err(_) => "err closed".into(),
+                    Ok(None) => "ok none".into(),
+                    Ok(Some(slice)) => extend_all(slice, k, v, &ch.log),
                 }
             }
             ["apush", k, v] => {
